@@ -67,10 +67,14 @@ def run(ctx):
         n, m = rng.randint(1, 8), rng.randint(1, 6)
         meth = rng.choice(METHODS)
         order = rng.choice([2, 4])
-        x = np.array([rng.uniform(-2, 2) for _ in range(n)])
+        # coordinates of different magnitude: the nominal step log(1.718 + |x_j|) (at least 1) then differs between coordinates
+        xscale = rng.choice([2.0, 2.0, 10.0, 100.0])
+        x = np.array([rng.uniform(-xscale, xscale) for _ in range(n)])
         A = np.array([[rng.randint(-16, 16) / 4 for _ in range(n)] for _ in range(m)])
         b = np.array([rng.randint(-8, 8) / 2 for _ in range(m)])
-        kind = rng.choice(['affine', 'affine', 'nonlinear', 'scalar', 'len1'])
+        kind = rng.choice(['affine', 'affine', 'nonlinear', 'scalar', 'len1', 'matrix', 'matrix'])
+        kk = rng.randint(1, 4)
+        T = np.array([[[rng.randint(-16, 16) / 4 for _ in range(n)] for _ in range(kk)] for _ in range(m)])      # (m, k, n)
         ctx.tried((n, m, meth, order, kind, tuple(x[:2])))
         rep = dict(n=n, m=m, method=meth, order=order, kind=kind, x=x.tolist())
         try:
@@ -85,6 +89,14 @@ def run(ctx):
                     u = W @ x
                     exact = (np.cos(u) + 2 * u)[:, None] * W
                     tol = None
+                elif kind == 'matrix':
+                    # f(t)[i, l] = sum_j T[i, l, j] t_j (+ a smooth term in half of the cases): shape (m, k); Jacobian [i, j, l] = d f[i, l] / d x_j
+                    smooth = it % 2 == 1
+                    fm = (lambda t: T @ t + np.sin(T @ t / 16)) if smooth else (lambda t: T @ t)
+                    J, info = nd.Jacobian(fm, method=meth, order=order, full_output=True)(x)
+                    dT = (1 + np.cos(T @ x / 16) / 16)[:, :, None] * T if smooth else T
+                    exact = np.transpose(dT, (0, 2, 1))
+                    tol = None if smooth else TOL_AFFINE * (1 + np.abs(T).max())
                 elif kind == 'scalar':
                     J, info = nd.Jacobian(lambda t: np.sum(A[0] * t) + np.prod(np.cos(t / 4)), method=meth, order=order, full_output=True)(x)
                     exact = (A[0] - np.prod(np.cos(x / 4)) * np.tan(x / 4) / 4)[None, :]
@@ -96,7 +108,7 @@ def run(ctx):
             ctx.violation('Jacobian raised %r' % ex, **rep)
             continue
         if J.shape != exact.shape:
-            ctx.violation('Jacobian shape is not (m, n)', got=list(J.shape), expected=list(exact.shape), **rep)
+            ctx.violation('Jacobian shape is not (m, n) / (m, n, k)', got=list(J.shape), expected=list(exact.shape), **rep)
             continue
         err = np.abs(J - exact)
         bound = tol if tol is not None else 1000 * np.asarray(info.error_estimate) + 1e-7 * (1 + np.abs(exact))
